@@ -256,8 +256,7 @@ fn known_class(opts: u32, input: &[u8], v: Verdict, in_child: bool, msg: &str) -
         Verdict::Abort if in_child && deeply_nested(input) && msg.contains("overflowed its stack") => Some("deep-nesting"),
         // `max_clause.1 != num_clauses.1 - 1` with a clause tree and `p cnf <n> 0`
         Verdict::Panic
-            if !in_child
-                && msg.starts_with("parser:")
+            if !msg.starts_with("load_file:")
                 && msg.contains("subtract with overflow")
                 && opts & 2 != 0
                 && lines().any(|l| l.starts_with(b"c") && l.windows(2).any(|w| w == b"co"))
@@ -270,8 +269,7 @@ fn known_class(opts: u32, input: &[u8], v: Verdict, in_child: bool, msg: &str) -
         }
         // `c vo []`: an order tree without leaves passes `tree()` and trips `VarSet::check_valid`
         Verdict::Panic
-            if !in_child
-                && msg.starts_with("parser:")
+            if !msg.starts_with("load_file:")
                 && msg.contains("order_tree.is_none()")
                 && opts & 1 != 0
                 && lines().any(|l| l.starts_with(b"c") && l.windows(2).any(|w| w == b"vo") && !l.iter().any(|b| b.is_ascii_digit())) =>
